@@ -29,7 +29,8 @@ from . import packages as pk
 
 PID = 'C17'
 MODES = ['interp', 'largest', 'largest+smallest', 'all']
-RULE = ('cases = (cube package with no aperture list, a list of one, two or 3-5 apertures, 4-12 wavelengths in either stored order, 2-6 models; '
+RULE = ('cases = (cube package (two thirds) or per-file package with convolved files at the tabulated wavelengths and the SEDs '
+        'in seds/ or in seds/<first 1-3 characters of the model name>/, with no aperture list, a list of one, two or 3-5 apertures, 4-12 wavelengths in either stored order, 2-6 models; '
         '3-5 monochromatic filters at tabulated wavelengths with angular apertures (repeated values allowed); '
         'model names stored in the cube in arbitrary (shuffled, un-padded numbered) order; extinction law tabulated in '
         'micron, nm, Angstrom or cm; distance range with theta*d inside or above the aperture table; 1-2 sources; selector N/A/C/D/E/F aimed at k = 1..5 selected fits, optional plot_max, plot_mode A or I, '
@@ -45,7 +46,8 @@ REQUIRED_BRANCHES = ['mode_interp', 'mode_largest', 'mode_largest+smallest', 'mo
                      'repeated_filter_aperture', 'distinct_filter_apertures', 'two_sources', 'ext_unit_micron', 'ext_unit_other',
                      'ext_unit_other_file_av_nonzero', 'cube_names_unsorted', 'aperture_list_of_one', 'two_apertures',
                      'selector_N', 'selector_other', 'plot_max', 'plot_mode_I', 'sources_subset', 'form_fitfile',
-                     'filter_units_other', 'av_range_not_from_zero', 'several_laws_same_package', 'later_law_av_nonzero', 'flux_unit_mJy', 'flux_unit_other', 'best_fit_tied', 'stored_increasing_wav', 'stored_decreasing_wav']
+                     'filter_units_other', 'av_range_not_from_zero', 'several_laws_same_package', 'later_law_av_nonzero', 'flux_unit_mJy', 'flux_unit_other', 'best_fit_tied', 'per_file_package', 'seds_in_subdirs', 'seds_flat',
+                     'subdir_shared_by_models', 'name_shorter_than_subdir', 'name_as_long_as_subdir', 'stored_increasing_wav', 'stored_decreasing_wav']
 ASSUMPTIONS = ['IEEE rounding is not modelled: model-vs-implementation tolerance 1e-9 relative on curve values',
                'pass-through against the stored predicted flux is checked to 2e-3 relative (the plot uses KPC = 3.086e21 cm, '
                'the package distance is astropy\'s kpc = 3.0857e21 cm: ratio^2 = 1 - 2.1e-4)',
@@ -187,6 +189,15 @@ def gen_case(rng, directed=None):
     names = ['m_%d' % (start + i) for i in range(nm)]
     if directed.get('names', rng.choice(['shuffled', 'shuffled', 'numeric'])) == 'shuffled':
         rng.shuffle(names)
+    # package format: cube (flux.fits) or per-file (seds/*.fits + convolved/*.fits written by the harness at the
+    # tabulated wavelengths), the latter with the SEDs in seds/<first k characters of the name>/ for k > 0
+    pkg = directed.get('pkg', rng.choice(['cube', 'cube', 'per_file']))
+    subdir = 0
+    if pkg == 'per_file':
+        subdir = directed.get('subdir', rng.choice([0, 1, 2, 3]))
+        # names that share / do not share their first k characters, shorter than k, exactly k long
+        pool_names = ['a', 'ab', 'abc', 'abd1', 'abd2', 'ac7', 'b', 'b12', 'xyz9', 'xy', 'abcde', 'x', 'xyz']
+        names = rng.sample(pool_names, nm)
     # unit in which the extinction law's wavelength column is tabulated
     ext_unit = directed.get('ext_unit', rng.choice(['micron', 'micron', 'nm', 'Angstrom', 'cm']))
     # how the fits are selected and shown
@@ -200,11 +211,11 @@ def gen_case(rng, directed=None):
     return dict(wav=wav, aps=aps, val=val, fidx=fidx, theta=theta, tab_w=tw, tab_chi=chi, av=av_range,
                 drange=[dmin, dmax], step=step, sources=sources, k=k, forms=forms, names=names, ext_unit=ext_unit,
                 select=select, plot_max=plot_max, plot_mode=plot_mode, subset=subset, wav_unit=wav_unit, ap_unit=ap_unit,
-                laws=laws, flux_unit=flux_unit, dup=dup)
+                laws=laws, flux_unit=flux_unit, dup=dup, pkg=pkg, subdir=subdir)
 
 
 FLUX_TO_MJY = {'mJy': 1., 'Jy': 1000., 'uJy': 1e-3}
-PLAIN = dict(n_laws=1, flux_unit='mJy', dup=False, select='N', plot_max=None, plot_mode='A', subset=None, wav_unit='micron', ap_unit='arcsec', av_lo=0.)
+PLAIN = dict(pkg='cube', n_laws=1, flux_unit='mJy', dup=False, select='N', plot_max=None, plot_mode='A', subset=None, wav_unit='micron', ap_unit='arcsec', av_lo=0.)
 DIRECTED = [
     dict(PLAIN, multi=False, napkind='none', k=1, forms=['object', 'file'], nsrc=1, stored='inc', repeat=False, ext_unit='micron'),
     dict(PLAIN, multi=True, napkind='many', k=1, forms=['object', 'file'], nsrc=1, where='inside', stored='dec', repeat=False, ext_unit='micron'),
@@ -233,6 +244,11 @@ DIRECTED = [
     dict(PLAIN, multi=False, napkind='none', k=3, forms=['object', 'file'], nsrc=1, dup=True),
     dict(PLAIN, multi=True, napkind='many', k=4, forms=['object', 'fitfile'], nsrc=1, where='inside', dup=True, flux_unit='Jy'),
     dict(PLAIN, multi=True, napkind='two', k=2, forms=['file'], nsrc=2, where='mixed', dup=True),
+    dict(PLAIN, pkg='per_file', subdir=0, multi=True, napkind='many', k=3, forms=['object', 'file'], nsrc=1, where='inside'),
+    dict(PLAIN, pkg='per_file', subdir=1, multi=False, napkind='none', k=4, forms=['object', 'file', 'fitfile'], nsrc=2),
+    dict(PLAIN, pkg='per_file', subdir=2, multi=True, napkind='many', k=5, forms=['file'], nsrc=1, where='mixed', flux_unit='Jy'),
+    dict(PLAIN, pkg='per_file', subdir=3, multi=True, napkind='two', k=3, forms=['object', 'fitfile'], nsrc=1, where='inside', dup=True),
+    dict(PLAIN, pkg='per_file', subdir=2, multi=False, napkind='one', k=6, forms=['object'], nsrc=1, n_laws=2),
 ]
 
 
@@ -261,7 +277,10 @@ def filter_quantities(case):
     from astropy import units as u
     wu = u.Unit(case.get('wav_unit', 'micron'))
     au = u.Unit(case.get('ap_unit', 'arcsec'))
-    fw = [(case['wav'][i] * u.micron).to(wu) for i in case['fidx']]
+    if case.get('pkg', 'cube') == 'per_file':        # named filters: convolved/F<j>.fits at the tabulated wavelength
+        fw = ['F%d' % j for j in range(len(case['fidx']))]
+    else:
+        fw = [(case['wav'][i] * u.micron).to(wu) for i in case['fidx']]
     ap = (np.array(case['theta'], dtype=float) * u.arcsec).to(au)
     return fw, ap
 
@@ -275,6 +294,8 @@ def theta_eff(case):
 def fwav_eff(case):
     """the filter wavelengths in micron as plot() derives them from the stored filters"""
     from astropy import units as u
+    if case.get('pkg', 'cube') == 'per_file':
+        return [float(case['wav'][i]) for i in case['fidx']]
     return [float(q.to(u.micron).value) for q in filter_quantities(case)[0]]
 
 
@@ -292,8 +313,15 @@ def build(case, d, li=0):
     val = np.array(case['val'], dtype=float)
     if li == 0:                                  # later laws of the history reuse the same package
         from astropy import units as u_
-        pk.write_cube_package(d, names, case['wav'], val, val * 0.1, apertures_au=case['aps'],
-                              unit=u_.Unit(case.get('flux_unit') or 'mJy'))
+        funit = u_.Unit(case.get('flux_unit') or 'mJy')
+        if case.get('pkg', 'cube') == 'per_file':
+            pk.write_sed_package(d, names, case['wav'], val, val * 0.1, apertures_au=case['aps'], unit=funit,
+                                 length_subdir=case.get('subdir', 0))
+            for j, wi in enumerate(case['fidx']):
+                pk.write_convolved(d, 'F%d' % j, case['wav'][wi], names, val[:, :, wi], val[:, :, wi] * 0.1,
+                                   apertures_au=case['aps'], unit=funit)
+        else:
+            pk.write_cube_package(d, names, case['wav'], val, val * 0.1, apertures_au=case['aps'], unit=funit)
     ext = make_ext(case)
     fw, ap = filter_quantities(case)
     out = {}
@@ -664,7 +692,20 @@ def _run_law(case, d, li, branches, key):
         other_unit = case.get('ext_unit', 'micron') != 'micron'
         branches.add('ext_unit_other' if other_unit else 'ext_unit_micron')
         nn = names_of(case)
-        branches.add('cube_names_sorted' if nn == sorted(nn) else 'cube_names_unsorted')
+        if case.get('pkg', 'cube') == 'per_file':
+            k_ = case.get('subdir', 0)
+            branches.add('per_file_package')
+            branches.add('seds_in_subdirs' if k_ else 'seds_flat')
+            if k_:
+                pre = [x[:k_] for x in nn]
+                if len(set(pre)) < len(pre):
+                    branches.add('subdir_shared_by_models')
+                if any(len(x) < k_ for x in nn):
+                    branches.add('name_shorter_than_subdir')
+                if any(len(x) == k_ for x in nn):
+                    branches.add('name_as_long_as_subdir')
+        else:
+            branches.add('cube_names_sorted' if nn == sorted(nn) else 'cube_names_unsorted')
         branches.add('flux_unit_mJy' if (case.get('flux_unit') or 'mJy') == 'mJy' else 'flux_unit_other')
         _, let_through = plotted_sources(case)
         t = common.driver().ask('getav %s %d %s %s' % (
